@@ -62,11 +62,31 @@ func faultedStores(r *ev.Run) {
 			e := &env{r: r, st: st, m: mb.NewModel(), caseID: caseID, desc: map[string]any{"history_hex": hist.Hex()}}
 			var failedAt []int
 			e.desc["relabel_failures_injected_at_steps"] = &failedAt
+			sqlReady := false
+			if _, err := st.DB.Exec(`CREATE TABLE IF NOT EXISTS verif_c13(armed INTEGER); DELETE FROM verif_c13; INSERT INTO verif_c13 VALUES (0);
+CREATE TRIGGER IF NOT EXISTS verif_c13_upd BEFORE UPDATE ON headers WHEN (SELECT armed FROM verif_c13) = 1 BEGIN SELECT RAISE(ABORT, 'verif: injected relabel failure inside sqlite'); END;`); err == nil {
+				sqlReady = true
+			}
 			for k, h := range hist.Hdrs {
 				*f = relabelFault{armed: rng.Intn(2) == 0, failAt: 1 + rng.Intn(2)}
+				// half of the failures happen inside SQLite (every UPDATE of the headers table aborts while armed) instead of
+				// at the repository seam
+				sqlLevel := false
+				if f.armed && sqlReady && rng.Intn(2) == 0 {
+					if _, _, reorg := e.m.Clone().Submit(h); reorg {
+						sqlLevel = true
+						f.armed = false
+						_, _ = st.DB.Exec(`UPDATE verif_c13 SET armed = 1`)
+					}
+				}
 				res := st.Add(h)
 				fired := f.fired
 				*f = relabelFault{}
+				if sqlLevel {
+					_, _ = st.DB.Exec(`UPDATE verif_c13 SET armed = 0`)
+					fired = true
+					r.Count("relabel_failures_inside_sqlite", 1)
+				}
 				if !fired {
 					out, _, _ := e.m.Submit(h)
 					if res.Panic != nil || res.Code() != mb.WantCode(out) {
@@ -77,11 +97,15 @@ func faultedStores(r *ev.Run) {
 				}
 				failedAt = append(failedAt, k)
 				r.Count("reorganisations_interrupted_by_a_failing_relabel", 1)
-				if res.Panic != nil || res.Code() == "stored" {
+				if res.Panic != nil {
 					r.Count("stores_skipped_ingest_divergence", 1)
 					return
 				}
 				if !e.structural() {
+					return
+				}
+				if res.Code() == "stored" {
+					r.Count("stores_skipped_ingest_divergence", 1) // answered as stored although a relabelling statement failed: C05's business
 					return
 				}
 				// redelivery, as a peer would
